@@ -55,9 +55,26 @@ theorem validateStmt_order (bucket : Bytes) (acct : Bytes → Bool) (st : Stmt)
   have hk := kindLoop_order (containsObjectPattern st.resources) (containsBucketPattern st.resources)
     (f st.actions) (g st.actions) (fun a => by rw [hf, hg])
     (fun a ha => actionKind_ne_panic a (hv a ((hf _ a).1 ha)))
+  have hlen : ((f st.actions).length = 0) = ((g st.actions).length = 0) := by
+    apply propext
+    rw [List.length_eq_zero_iff, List.length_eq_zero_iff]
+    have a := ord_ne_nil f hf st.actions
+    have b := ord_ne_nil g hg st.actions
+    by_cases e : st.actions = []
+    · have hfe : f st.actions = [] := by
+        by_cases h : f st.actions = []
+        · exact h
+        · exact absurd e (a.1 h)
+      have hge : g st.actions = [] := by
+        by_cases h : g st.actions = []
+        · exact h
+        · exact absurd e (b.1 h)
+      simp [hfe, hge]
+    · simp [a.2 e, b.2 e]
   unfold validateStmt
   dsimp only
   rw [hk]
+  simp only [hlen]
 
 theorem validatePolicy_order (bucket : Bytes) (acct : Bytes → Bool) (pol : Policy)
     (f g : List Bytes → List Bytes) (hf : OrdOK f) (hg : OrdOK g)
